@@ -1,47 +1,23 @@
 import McpModel.Base.Proto
-import McpModel.Paginate.Model
-import McpModel.Generated.PaginateGen
+import McpModel.Paginate.ModelRun
 /-!
-Driver for E13 (C17).  Replays the harness's operation lines on the model (`FS` with its lazily
-rebuilt index, `paginate`, the iterator machine `pull`) and evaluates the C17 monitor on the
-*implementation's* observations.
+Driver for E13 (C17): the string layer.  Parses the harness's operation lines into typed records
+(`Monitor.Rec`), replays them on the model (`FS` with its lazily rebuilt index, `paginate`, the
+iterator machine `pull`) and renders the clause the typed C17 monitor (`Monitor.monStep`) reports on
+the *implementation's* observations.
 
 Keys travel hex-encoded and are compared as byte strings (`List Nat`, Go's order); values stay hex.
 The cursor codec is abstract in the model; here a cursor is what the implementation's own
 `decodeCursor` says about it (the harness reports that next to the raw cursor): `-` empty, `b` does
-not decode, `k<hex>` decodes to that key.
+not decode, `k<hex>` decodes to that key, `p` `decodeCursor` itself crashed.
 
-The monitor keeps its own registry per feature kind (a plain association list, no index, no cache)
-and checks, on what the implementation answered:
-* every page is exactly the first `p` registered entries strictly above the cursor's key, ascending,
-  with the value registered at that moment; `NextCursor` is empty exactly when nothing is left and
-  otherwise decodes to the last key of the page (this is where `dec (enc k) = k` is checked);
-* a cursor that does not decode is answered with invalid params; nothing else fails or crashes;
-* per traversal (`tbegin` … `tend`): the received keys are strictly ascending overall, and when the
-  empty cursor was reached every key registered at every fetch was received exactly once; without
-  mutations the pages are all entries in `max 1 ⌈n/p⌉` pages;
-* iterators hand out exactly what manual paging against the registry yields.
+An observation that is not in the canonical form the renderers below produce is read as
+`LObs.other` / `IEnd.other` (so that typed equality with the expected observation is string equality);
+the expected observation is rendered and read back on every record (`LIBDISC render/parse` if that
+round trip fails).
 -/
 namespace Paginate
 open Proto
-
-abbrev K := List Nat
-
-inductive DCur
-  | nil
-  | good (uid : K)
-  | bad
-deriving DecidableEq, Repr
-
-/-- The canonical image of the codec: `enc k` is "a cursor that decodes to `k`". -/
-def dcodec : Codec K DCur where
-  nil := .nil
-  enc k := .good k
-  dec c := match c with
-    | .good k => some k
-    | _ => none
-  dec_enc _ := rfl
-  enc_ne_nil _ := by intro h; cases h
 
 def hexToKey (s : String) : Option K := (hexToBytes s).map (·.map UInt8.toNat)
 /-- Op tokens carry keys and values as `x<hex>` (so that the empty string is still a token). -/
@@ -60,7 +36,7 @@ def showCur : DCur → String
   | .bad => "b"
   | .good k => "k" ++ keyToHex k
 
-def showItem (f : K × String) : String := keyToHex f.1 ++ ":" ++ f.2
+def showItem (f : Item) : String := keyToHex f.1 ++ ":" ++ f.2
 
 def errInvalid : String := s!"err {Generated.Paginate.codeInvalidParams}"
 
@@ -69,64 +45,14 @@ def showRes : Res K String DCur → String
   | .invalidParams => errInvalid
   | .panic => "panic"
 
-/-! ### the monitor's registry (the three-line specification) -/
+def parseKind (s : String) : Option Kind :=
+  if s == "tools" then some .tools
+  else if s == "prompts" then some .prompts
+  else if s == "resources" then some .resources
+  else if s == "templates" then some .templates
+  else none
 
-def insSorted (f : K × String) : List (K × String) → List (K × String)
-  | [] => [f]
-  | g :: r => if ltBytes f.1 g.1 then f :: g :: r else g :: insSorted f r
-
-def sortReg (reg : List (K × String)) : List (K × String) := reg.foldr insSorted []
-
-def regAdd (reg : List (K × String)) (f : K × String) : List (K × String) :=
-  reg.filter (fun g => g.1 ≠ f.1) ++ [f]
-
-def regRemove (reg : List (K × String)) (ks : List K) : List (K × String) :=
-  reg.filter (fun g => !ks.contains g.1)
-
-def specPage (reg : List (K × String)) (p : Nat) (cur : DCur) : Res K String DCur :=
-  match cur with
-  | .bad => .invalidParams
-  | _ =>
-    let all := sortReg reg
-    let R := match cur with
-      | .good uid => all.filter (fun (f : K × String) => ltBytes uid f.1)
-      | _ => all
-    let items := R.take p
-    if R.length ≤ p then .page items .nil
-    else match items.getLast? with
-      | some l => .page items (.good l.1)
-      | none => .page items .nil
-
-structure TravMon where
-  items : List K := []         -- keys received so far (implementation)
-  stable : Option (List K) := none   -- keys registered at every fetch so far
-  finished : Bool := false     -- last page had an empty cursor
-  broken : Bool := false       -- a fetch failed
-  mutated : Bool := false
-  pages : Nat := 0
-  first : List (K × String) := []   -- registry at the first fetch
-
-/-- A foreign server's list method: cursor received ↦ answer (`Model.scriptOracle`). -/
-abbrev Script := List (DCur × Res K String DCur)
-
-structure KindSt where
-  fs : FS K String := FS.empty
-  reg : List (K × String) := []
-  script : Option Script := none   -- `some`: the list method is played by a scripted foreign server
-  mit : Option (Iter K String DCur) := none   -- model iterator
-  sit : Option (Iter K String DCur) := none   -- monitor iterator (against the registry)
-  tr : Option TravMon := none
-
-structure DState where
-  p : Nat := Generated.Paginate.defaultPageSize
-  kinds : List (String × KindSt) := [("tools", {}), ("prompts", {}), ("resources", {}), ("templates", {})]
-
-def DState.get (d : DState) (kind : String) : Option KindSt := d.kinds.lookup kind
-
-def DState.set (d : DState) (kind : String) (k : KindSt) : DState :=
-  { d with kinds := d.kinds.map (fun q => if q.1 == kind then (q.1, k) else q) }
-
-def parsePairs : List String → Option (List (K × String))
+def parsePairs : List String → Option (List Item)
   | [] => some []
   | [_] => none
   | a :: b :: r => do
@@ -142,8 +68,13 @@ def parseKeys : List String → Option (List K)
     let t ← parseKeys r
     some (k :: t)
 
+def parseItem (w : String) : Option Item :=
+  match w.splitOn ":" with
+  | [a, b] => (hexToKey a).map (fun k => (k, b))
+  | _ => none
+
 /-- Parse `page k:v … next=tok` as printed by the harness. -/
-def parsePageObs (impl : String) : Option (List (K × String) × DCur) :=
+def parsePageObs (impl : String) : Option (List Item × DCur) :=
   match words impl with
   | "page" :: rest =>
     match rest.getLast? with
@@ -151,23 +82,48 @@ def parsePageObs (impl : String) : Option (List (K × String) × DCur) :=
     | some nx =>
       if !nx.startsWith "next=" then none else do
         let cur ← parseCur (nx.drop 5).toString
-        let items ← (rest.dropLast).mapM (fun w =>
-          match w.splitOn ":" with
-          | [a, b] => (hexToKey a).map (fun k => (k, b))
-          | _ => none)
+        let items ← (rest.dropLast).mapM parseItem
         some (items, cur)
   | _ => none
+
+/-- The implementation's answer to a list request, typed (canonical text only). -/
+def parseLObs (impl : String) : LObs :=
+  match parsePageObs impl with
+  | some (items, next) => if showRes (.page items next) == impl then .page items next else .other
+  | none => if impl == errInvalid then .invalid else .other
+
+def showEnd : IEnd → String
+  | .more => "more"
+  | .fin => "end"
+  | .err => errInvalid
+  | .stuck => "stuck"
+  | .runaway => "runaway"
+  | .other => "?"
+
+def showIObs (o : IObs) : String := " ".intercalate (("items" :: o.items.map showItem) ++ [showEnd o.ending])
+
+def parseEnd (s : String) : IEnd :=
+  if s == "more" then .more
+  else if s == "end" then .fin
+  else if s == errInvalid then .err
+  else if s == "stuck" then .stuck
+  else if s == "runaway" then .runaway
+  else .other
+
+/-- What an iterator handed out, typed: `items k:v … <ending>` (canonical text only). -/
+def parseIObs (impl : String) : IObs :=
+  match words impl with
+  | "items" :: rest =>
+    let its := rest.takeWhile (fun w => w.contains ':')
+    let o : IObs := ⟨its.filterMap parseItem, parseEnd (" ".intercalate (rest.dropWhile (fun w => w.contains ':')))⟩
+    if showIObs o == impl then o else { o with ending := .other }
+  | _ => ⟨[], .other⟩
 
 /-! ### scripted (foreign) servers -/
 
 /-- Script cursors travel as `-` / `x<hex>`; a foreign cursor is its own name (`.good bytes`). -/
 def parseSCur (t : String) : Option DCur :=
   if t == "-" then some .nil else (xToKey t).map .good
-
-def parseSItem (w : String) : Option (K × String) :=
-  match w.splitOn ":" with
-  | [a, b] => (hexToKey a).map (fun k => (k, b))
-  | _ => none
 
 /-- `<cur>=<items>=<next>` or `<cur>=!`; a value ending in `!` marks a tool that `ListTools` drops. -/
 def parseSEntry (t : String) : Option (DCur × Res K String DCur) :=
@@ -176,241 +132,142 @@ def parseSEntry (t : String) : Option (DCur × Res K String DCur) :=
   | [c, its, n] => do
     let c ← parseSCur c
     let n ← parseSCur n
-    let items ← (if its == "" then some [] else (its.splitOn ",").mapM parseSItem)
+    let items ← (if its == "" then some [] else (its.splitOn ",").mapM parseItem)
     some (c, .page items n)
   | _ => none
 
-/-- What `filterValidTools` keeps (only `ListTools` filters). -/
-def keepItem (kind : String) (f : K × String) : Bool := !(kind == "tools" && f.2.endsWith "!")
+/-! ### clause texts -/
 
-/-- The server as the client's `ListX` sees it: the script, then `ListTools`' per-page filter. -/
-def scriptedOracle (kind : String) (sc : Script) : Nat → DCur → Res K String DCur :=
-  filterOracle (keepItem kind) (scriptOracle sc)
+def clauseText : Clause → String
+  | .malformedNotRefused => "C17: malformed cursor not answered with invalid params (-32602)"
+  | .listFailed => "C17: list request crashed or failed on a well-formed cursor"
+  | .pageWrong => "C17: page is not the first p registered entries above the cursor, ascending"
+  | .nextUndecodable => "C17: the NextCursor the server issued is refused by the server's own decodeCursor (following cursors cannot reach the remaining items)"
+  | .nextWrong => "C17: NextCursor wrong (empty exactly on the last page, else decodes to the last key returned)"
+  | .foreignPage => "C17: ListX result is not the page the server sent (items in order, NextCursor unchanged; ListTools minus tools with invalid x-mcp-header annotations)"
+  | .addFailed => "C17: registering a feature failed"
+  | .followRefused => "C17: the server refused (invalid params) the NextCursor it had just issued"
+  | .travOrder => "C17: traversal repeats or reorders keys (not strictly ascending)"
+  | .travMiss => "C17: traversal misses an item that stayed registered throughout"
+  | .travNotExact => "C17: traversal without mutations is not exactly the registered set"
+  | .travPages => "C17: traversal without mutations used a wrong number of pages"
+  | .iterForeign => "C17: iterator sequence differs from manual paging against a foreign server (start at the given cursor, follow NextCursor until it is empty whatever the pages hold, stop at the first error)"
+  | .iterManual => "C17: iterator sequence differs from manual paging"
+  | .codecLaw => "C17: cursor codec law dec (enc k) = k, enc k non-empty, is broken"
+  | .codecCrash => "C17: decodeCursor crashed on a cursor string"
 
-def scriptItems (sc : Script) : Nat :=
-  sc.foldl (fun n e => match e.2 with | .page items _ => n + items.length | _ => n) 0
+/-! ### the engine: model state (`ModelRun.modStep`) + monitor state (`Monitor.monStep`) -/
 
-def showEnding : Ending → String
-  | .done => "end"
-  | .error => errInvalid
-  | .running => "runaway"
+structure DState where
+  mon : MState := {}
+  mod : ModState := {}
 
-/-- Manual paging (`Model.manual`) rendered like an `iterall` observation. -/
-def manualAll (o : Nat → DCur → Res K String DCur) (cur : DCur) (fuel : Nat) : String × Ending :=
-  let r := manual DCur.nil o fuel 0 cur
-  (" ".intercalate (("items" :: r.1.flatten.map showItem) ++ [showEnding r.2]), r.2)
+def bad (d : DState) : DState × Verdict := (d, { model := "bad-op" })
 
-def strictlyAscending : List K → Bool
-  | [] => true
-  | [_] => true
-  | a :: b :: r => ltBytes a b && strictlyAscending (b :: r)
+def showLObs : LObs → String
+  | .page items next => showRes (.page items next)
+  | .invalid => errInvalid
+  | .other => "panic"
 
-def pagesFor' (n p : Nat) : Nat := max 1 ((n + p - 1) / p)
+/-- The observation a record carries, as the harness prints it. -/
+def showObs : Rec → String
+  | .list _ _ _ o => showLObs o
+  | .ipull _ _ o => if o == noIter then "noiter" else showIObs o
+  | .iterall _ _ o => showIObs o
+  | .roundtrip _ => "same"
+  | .readonly _ => "done"
+  | _ => "ok"
 
-/-- Monitor of one list answer against the registry. -/
-def monList (reg : List (K × String)) (p : Nat) (cur : DCur) (impl : String) : Option String :=
-  let want := specPage reg p cur
-  if impl == showRes want then none
-  else match cur, parsePageObs impl with
-    | .bad, _ => some "C17: malformed cursor not answered with invalid params (-32602)"
-    | _, none => some "C17: list request crashed or failed on a well-formed cursor"
-    | _, some (items, next) =>
-      match want with
-      | .page witems wnext =>
-        if items != witems then some "C17: page is not the first p registered entries above the cursor, ascending"
-        else if next == .bad then some "C17: the NextCursor the server issued is refused by the server's own decodeCursor (following cursors cannot reach the remaining items)"
-        else if next != wnext then some "C17: NextCursor wrong (empty exactly on the last page, else decodes to the last key returned)"
-        else some "C17: page differs from the specification"
-      | _ => some "C17: page differs from the specification"
+/-- Self-check of the string layer: the observation survives rendering and parsing. -/
+def roundTrips : Rec → Bool
+  | .list _ _ _ o => o == .other || parseLObs (showLObs o) == o
+  | .ipull _ _ o => o == noIter || parseIObs (showIObs o) == o
+  | .iterall _ _ o => parseIObs (showIObs o) == o
+  | _ => true
 
-def travFetch (t : TravMon) (reg : List (K × String)) (impl : String) : TravMon :=
-  let regKeys := reg.map (·.1)
-  let stable := match t.stable with
-    | none => regKeys
-    | some s => s.filter (fun k => regKeys.contains k)
-  let first := if t.pages == 0 then reg else t.first
-  match parsePageObs impl with
-  | none => { t with broken := true, stable := some stable, pages := t.pages + 1, first := first }
-  | some (items, next) =>
-    { t with items := t.items ++ items.map (·.1), stable := some stable, finished := next == .nil,
-             pages := t.pages + 1, first := first }
+/-- One typed record: the model's observation (`modStep`) as text, the monitor's clause on the
+implementation's (`monStep`). -/
+def judge (d : DState) (r : Rec) : DState × Verdict :=
+  let (mod', mrec) := modStep d.mod r
+  let (mon', cl) := monStep d.mon r
+  let viol := cl.map clauseText
+  let viol := if roundTrips mrec then viol
+    else viol.orElse (fun _ => some "LIBDISC render/parse: the model's observation does not survive the string layer")
+  ({ mon := mon', mod := mod' }, { model := showObs mrec, violated := viol })
 
-def monTend (t : TravMon) (p : Nat) : Option String :=
-  if t.broken then none   -- already reported at the failing fetch
-  else if !strictlyAscending t.items then some "C17: traversal repeats or reorders keys (not strictly ascending)"
-  else if t.finished ∧ !(t.stable.getD []).all (fun k => t.items.contains k) then
-    some "C17: traversal misses an item that stayed registered throughout"
-  else if t.finished ∧ !t.mutated ∧ t.items != (sortReg t.first).map (·.1) then
-    some "C17: traversal without mutations is not exactly the registered set"
-  else if t.finished ∧ !t.mutated ∧ t.pages != pagesFor' t.first.length p then
-    some "C17: traversal without mutations used a wrong number of pages"
-  else none
-
-/-- Pull until an element, the end or an error (the model server never returns an empty page with a
-non-empty cursor, so two rounds suffice; `again` beyond that is reported). -/
-def pullEvent (o : Nat → DCur → Res K String DCur) : Nat → Iter K String DCur → Iter K String DCur × Event K String
-  | 0, it => (it, .again)
-  | f + 1, it =>
-    match pull DCur.nil o it with
-    | (it', .again) => pullEvent o f it'
-    | r => r
-
-def pullMany (o : Nat → DCur → Res K String DCur) (rounds : Nat) : Nat → Iter K String DCur → List String → Iter K String DCur × String
-  | 0, it, acc => (it, " ".intercalate (("items" :: acc.reverse) ++ ["more"]))
-  | m + 1, it, acc =>
-    match pullEvent o rounds it with
-    | (it', .item x) => pullMany o rounds m it' (showItem x :: acc)
-    | (it', .stop) => (it', " ".intercalate (("items" :: acc.reverse) ++ ["end"]))
-    | (it', .err) => (it', " ".intercalate (("items" :: acc.reverse) ++ [errInvalid]))
-    | (it', .again) => (it', " ".intercalate (("items" :: acc.reverse) ++ ["stuck"]))
-
-def iterAll (o : Nat → DCur → Res K String DCur) (cur : DCur) (fuel : Nat) (rounds : Nat := 3) : String :=
-  let rec go : Nat → Iter K String DCur → List String → String
-    | 0, _, acc => " ".intercalate (("items" :: acc.reverse) ++ ["runaway"])
-    | f + 1, it, acc =>
-      match pullEvent o rounds it with
-      | (it', .item x) => go f it' (showItem x :: acc)
-      | (_, .stop) => " ".intercalate (("items" :: acc.reverse) ++ ["end"])
-      | (_, .err) => " ".intercalate (("items" :: acc.reverse) ++ [errInvalid])
-      | (_, .again) => " ".intercalate (("items" :: acc.reverse) ++ ["stuck"])
-  go fuel (Iter.start cur) []
-
-def markMutated (k : KindSt) : KindSt :=
-  { k with tr := k.tr.map (fun t => { t with mutated := true }) }
-
-def stepList (d : DState) (kind cur : String) (impl : String) : DState × Verdict :=
-  match d.get kind, parseCur cur with
-  | some k, some c =>
-    match k.script with
-    | some sc =>
-      -- foreign server: `ListX` must hand over the page it was sent (minus dropped tools)
-      let want := showRes (scriptedOracle kind sc 0 c)
-      let viol := if impl == want then none
-        else some "C17: ListX result is not the page the server sent (items in order, NextCursor unchanged; ListTools minus tools with invalid x-mcp-header annotations)"
-      (d, { model := want, violated := viol })
-    | none =>
-      let (fs', res) := paginate dcodec d.p k.fs c
-      let viol := monList k.reg d.p c impl
-      let tr' := k.tr.map (fun t => travFetch t k.reg impl)
-      (d.set kind { k with fs := fs', tr := tr' }, { model := showRes res, violated := viol })
-  | _, _ => (d, { model := "bad-op" })
+/-- A cursor token: `p` = the implementation's `decodeCursor` crashed while the harness classified it. -/
+def withCur (d : DState) (cur : String) (k : DCur → DState × Verdict) : DState × Verdict :=
+  match parseCur cur with
+  | some c => k c
+  | none => if cur == "p" then judge d (.codec false) else bad d
 
 def engine : Engine DState where
   init := {}
   step d toks impl :=
     match toks with
-    | ["reset"] => ({}, { model := "ok" })
+    | ["reset"] => judge d .reset
     | ["server", n, _] =>
       match n.toNat? with
-      | none => (d, { model := "bad-op" })
-      | some n =>
-        let d' : DState := { p := if n == 0 then Generated.Paginate.defaultPageSize else n }
-        (d', { model := "ok" })
+      | none => bad d
+      | some n => judge d (.server n)
     | "add" :: kind :: rest =>
-      match d.get kind, parsePairs rest with
-      | some k, some fs =>
-        let k' := markMutated { k with fs := k.fs.add fs, reg := fs.foldl regAdd k.reg }
-        let viol := if impl == "ok" then none else some "C17: registering a feature failed"
-        (d.set kind k', { model := "ok", violated := viol })
-      | _, _ => (d, { model := "bad-op" })
+      match parseKind kind, parsePairs rest with
+      | some kind, some fs => judge d (.add kind fs (impl == "ok"))
+      | _, _ => bad d
     | "remove" :: kind :: rest =>
-      match d.get kind, parseKeys rest with
-      | some k, some ks =>
-        let k' := markMutated { k with fs := (k.fs.remove ks).1, reg := regRemove k.reg ks }
-        (d.set kind k', { model := "ok" })
-      | _, _ => (d, { model := "bad-op" })
+      match parseKind kind, parseKeys rest with
+      | some kind, some ks => judge d (.remove kind ks)
+      | _, _ => bad d
     | "script" :: kind :: rest =>
-      match d.get kind, rest.mapM parseSEntry with
-      | some k, some sc => (d.set kind { k with script := some sc }, { model := "ok" })
-      | _, _ => (d, { model := "bad-op" })
+      match parseKind kind, rest.mapM parseSEntry with
+      | some kind, some sc => judge d (.script kind sc)
+      | _, _ => bad d
     | ["unscript", kind] =>
-      match d.get kind with
-      | some k => (d.set kind { k with script := none }, { model := "ok" })
-      | none => (d, { model := "bad-op" })
+      match parseKind kind with
+      | some kind => judge d (.unscript kind)
+      | none => bad d
     | ["list", kind, cur, _, "follow"] =>
       -- the request carries the NextCursor of the previous answer for this kind
-      let (d', out) := stepList d kind cur impl
-      let scripted := match d.get kind with
-        | some k => k.script.isSome
-        | none => false
-      if impl == errInvalid && out.violated.isNone && !scripted then
-        (d', { out with violated := some "C17: the server refused (invalid params) the NextCursor it had just issued" })
-      else (d', out)
-    | ["list", kind, cur, _] => stepList d kind cur impl
+      match parseKind kind with
+      | some kind => withCur d cur (fun c => judge d (.list kind c true (parseLObs impl)))
+      | none => bad d
+    | ["list", kind, cur, _] =>
+      match parseKind kind with
+      | some kind => withCur d cur (fun c => judge d (.list kind c false (parseLObs impl)))
+      | none => bad d
     | ["tbegin", kind] =>
-      match d.get kind with
-      | some k => (d.set kind { k with tr := some {} }, { model := "ok" })
-      | none => (d, { model := "bad-op" })
+      match parseKind kind with
+      | some kind => judge d (.tbegin kind)
+      | none => bad d
     | ["tend", kind] =>
-      match d.get kind with
-      | some k =>
-        let viol := match k.tr with
-          | some t => monTend t d.p
-          | none => none
-        (d.set kind { k with tr := none }, { model := "ok", violated := viol })
-      | none => (d, { model := "bad-op" })
+      match parseKind kind with
+      | some kind => judge d (.tend kind)
+      | none => bad d
     | ["iopen", kind, cur, _] =>
-      match d.get kind, parseCur cur with
-      | some k, some c =>
-        (d.set kind { k with mit := some (Iter.start c), sit := some (Iter.start c) }, { model := "ok" })
-      | _, _ => (d, { model := "bad-op" })
+      match parseKind kind with
+      | some kind => withCur d cur (fun c => judge d (.iopen kind c))
+      | none => bad d
     | ["ipull", kind, m] =>
-      match d.get kind, m.toNat? with
-      | some k, some m =>
-        match k.mit, k.sit with
-        | some mit, some sit =>
-          match k.script with
-          | some sc =>
-            -- the iterator machine against the foreign server; any number of empty pages in a row
-            let o := scriptedOracle kind sc
-            let (mit', mout) := pullMany o (sc.length + 3) m mit []
-            let viol := if impl == mout then none
-              else some "C17: iterator sequence differs from manual paging against a foreign server (start at the given cursor, follow NextCursor until it is empty whatever the pages hold, stop at the first error)"
-            (d.set kind { k with mit := some mit', sit := some mit' }, { model := mout, violated := viol })
-          | none =>
-          -- model: the iterator machine against the model server (whose index cache it fills)
-          let fsAfter := k.fs.sortKeys
-          let (mit', mout) := pullMany (fun _ c => (paginate dcodec d.p k.fs c).2) 3 m mit []
-          let (sit', sout) := pullMany (fun _ c => specPage k.reg d.p c) 3 m sit []
-          let viol := if impl == sout then none
-            else some "C17: iterator sequence differs from manual paging"
-          (d.set kind { k with fs := fsAfter, mit := some mit', sit := some sit' }, { model := mout, violated := viol })
-        | _, _ => (d, { model := "noiter" })
-      | _, _ => (d, { model := "bad-op" })
+      match parseKind kind, m.toNat? with
+      | some kind, some m => judge d (.ipull kind m (parseIObs impl))
+      | _, _ => bad d
     | ["iclose", kind] =>
-      match d.get kind with
-      | some k => (d.set kind { k with mit := none, sit := none }, { model := "ok" })
-      | none => (d, { model := "bad-op" })
+      match parseKind kind with
+      | some kind => judge d (.iclose kind)
+      | none => bad d
     | ["iterall", kind, cur, _] =>
-      match d.get kind, parseCur cur with
-      | some k, some c =>
-        match k.script with
-        | some sc =>
-          -- model: the iterator machine; monitor: manual paging, literally (`Model.manual`)
-          let o := scriptedOracle kind sc
-          let mout := iterAll o c (scriptItems sc + 4) (sc.length + 3)
-          let (sout, ending) := manualAll o c (sc.length + 2)
-          -- (a cyclic script has no finite manual listing: nothing to compare with)
-          let viol := if impl == sout || ending == .running then none
-            else some "C17: iterator sequence differs from manual paging against a foreign server (start at the given cursor, follow NextCursor until it is empty whatever the pages hold, stop at the first error)"
-          (d, { model := mout, violated := viol })
-        | none =>
-        let fuel := 2 * k.reg.length + 8
-        let mout := iterAll (fun _ c => (paginate dcodec d.p k.fs c).2) c fuel
-        let sout := iterAll (fun _ c => specPage k.reg d.p c) c fuel
-        let viol := if impl == sout then none
-          else some "C17: iterator sequence differs from manual paging"
-        (d.set kind { k with fs := k.fs.sortKeys }, { model := mout, violated := viol })
-      | _, _ => (d, { model := "bad-op" })
-    | ["roundtrip", _] =>
-      let viol := if impl == "same" then none else some "C17: cursor codec law dec (enc k) = k, enc k non-empty, is broken"
-      (d, { model := "same", violated := viol })
-    | ["codec", _] =>
-      let viol := if impl == "ok" then none else some "C17: decodeCursor crashed on a cursor string"
-      (d, { model := "ok", violated := viol })
-    | [_, _, "p", _] =>
-      (d, { model := "bad-op", violated := some "C17: decodeCursor crashed on a cursor string" })
-    | _ => (d, { model := "bad-op" })
+      match parseKind kind with
+      | some kind => withCur d cur (fun c => judge d (.iterall kind c (parseIObs impl)))
+      | none => bad d
+    | ["ro", _, touch] =>
+      -- a read-only request; `touch`: the kind whose sorted index it walks, or `-`
+      if touch == "-" then judge d (.readonly none)
+      else match parseKind touch with
+        | some kind => judge d (.readonly (some kind))
+        | none => bad d
+    | ["roundtrip", _] => judge d (.roundtrip (impl == "same"))
+    | ["codec", _] => judge d (.codec (impl == "ok"))
+    | _ => bad d
 
 end Paginate
 
